@@ -56,6 +56,7 @@ type vfE2Params struct {
 	Prop        string        `json:"property"`
 	Case        int           `json:"case"`
 	Seed        int64         `json:"seed"`
+	Profile     string        `json:"profile,omitempty"`
 	GoMaxProcs  int           `json:"gomaxprocs"`
 	Shards      uint          `json:"shards"`
 	FastKeys    uint          `json:"fastkeys"`
@@ -166,13 +167,55 @@ func vfE2Plan(seed int64, prop string, i int) *vfE2Params {
 	if prop == "C17" && p.Noise == 0 {
 		p.Noise = 2
 	}
+	p.NoiseOps = rng.Range(4, 30)
+	if (prop == "C01" || prop == "C17") && i%3 == 2 {
+		// key-table churn profile: every round starts with all clients of a partition racing for a
+		// key that does not exist yet, in one or two fast-key slots, at full speed (no hook delays),
+		// while noise clients create and remove other keys of the same slots all the time
+		p.Profile = "churn"
+		p.GoMaxProcs = []int{4, 16, 16}[rng.Intn(3)]
+		p.FastKeys = uint([]int{1, 1, 2}[rng.Intn(3)])
+		if i%6 == 5 {
+			// 64 slots; in four slots no shared key lives in, a pair of noise clients arranges that one
+			// key sits in the slow map while the slot's fast key is created and removed all the time
+			p.Profile = "churn-pairs"
+			p.FastKeys = 64
+		}
+		p.Shards = uint(rng.Range(1, 2))
+		p.SleepPm, p.GoschedPm = 0, []int{0, 0, 100}[rng.Intn(3)]
+		p.OpsPerRound = rng.Range(1, 2)
+		p.Rounds = 360 / (8 * p.OpsPerRound)
+		if p.Rounds > 40 {
+			p.Rounds = 40
+		}
+		if len(p.Keys) > 2 {
+			p.Keys = p.Keys[:2]
+		}
+		total = 0
+		for k := range p.Keys {
+			kp := &p.Keys[k]
+			if kp.Mode == "expiring" || kp.Mode == "mixed" {
+				kp.Mode, kp.Count = "excl", 0
+			}
+			for len(kp.Clients) < 6 {
+				kp.Clients = append(kp.Clients, vfE2ClientPlan{Front: "mem"})
+			}
+			for c := range kp.Clients {
+				if kp.Clients[c].Front == "text" || (kp.Clients[c].Front == "bin" && c%2 == 0) {
+					kp.Clients[c].Front = "mem"
+				}
+			}
+			total += len(kp.Clients)
+		}
+		p.Noise = 8
+		p.NoiseOps = rng.Range(40, 120)
+	}
 	if total+p.Noise > 64 {
 		p.Noise = 64 - total
 	}
 	for total+p.Noise < 4 {
 		p.Noise++
 	}
-	p.NoiseOps = rng.Range(4, 30)
 	p.RngSeed = rng.U64()
 	return p
 }
@@ -731,6 +774,12 @@ type vfE2Client struct {
 	pending  map[[2]int]bool
 	failed   bool
 	noiseSeq int
+	// churn-pairs profile: role 1 = pins the fast slot, later creates / removes fast keys in it;
+	// role 2 = keeps one key of the slot (created while the slot was pinned: slow map) locked / unlocked
+	pairRole  int
+	pairKeys  []int // keys of the pair's fast-key slot: [0] pin key, [1] the slow-map key, [2:] probe keys
+	pairHeld  bool
+	pairProbe int
 }
 
 func (c *vfE2Client) onReply(op *vfE2Op, rep *vfE2Reply) {
@@ -926,10 +975,14 @@ func (c *vfE2Client) runRound(round int) {
 // removed all the time in the fast-key slots the shared keys live in.
 func (c *vfE2Client) runNoise(round int) {
 	lid := c.idx * 8
+	if c.pairRole != 0 {
+		c.runPair(round, lid)
+		return
+	}
 	for i := 0; i < c.r.p.NoiseOps && !c.failed; i++ {
-		key := vfE2NoiseKey + c.noiseIdx*2500 + c.noiseSeq
+		key := vfE2NoiseKey + c.noiseIdx*7000 + c.noiseSeq
 		c.noiseSeq++
-		if c.noiseSeq >= 2500 {
+		if c.noiseSeq >= 7000 {
 			return
 		}
 		op := &vfE2Op{Part: -1, Round: round, Key: key, Lid: lid, Kind: "lock", Count: 0}
@@ -949,6 +1002,80 @@ func (c *vfE2Client) runNoise(round int) {
 			op.Expried, op.EFlag = uint16(c.rng.Range(2, 12)), protocol.EXPRIED_FLAG_MILLISECOND_TIME
 		}
 		c.do(op)
+	}
+}
+
+func vfE2FastHash(k [16]byte) uint32 {
+	return (uint32(k[0]) | uint32(k[1])<<8 | uint32(k[2])<<16 | uint32(k[3])<<24) ^ (uint32(k[4]) | uint32(k[5])<<8 | uint32(k[6])<<16 | uint32(k[7])<<24) ^
+		(uint32(k[8]) | uint32(k[9])<<8 | uint32(k[10])<<16 | uint32(k[11])<<24) ^ (uint32(k[12])<<24 | uint32(k[13])<<16 | uint32(k[14])<<8 | uint32(k[15]))
+}
+
+// vfE2SlotKeys: n key indices >= from whose keys hash into fast-key slot `slot` of `slots`.
+func vfE2SlotKeys(slots uint32, slot uint32, from int, n int) []int {
+	var out []int
+	for k := from; k < 65536 && len(out) < n; k++ {
+		if vfE2FastHash(vfKeyBytes(0, k))%slots == slot {
+			out = append(out, k)
+		}
+	}
+	return out
+}
+
+func (c *vfE2Client) runPair(round int, lid int) {
+	r := c.r
+	lock := func(key int, e uint16) *vfE2Op {
+		op := &vfE2Op{Part: -1, Round: round, Key: key, Lid: lid, Kind: "lock", Expried: e}
+		c.do(op)
+		return op
+	}
+	unlock := func(key int) {
+		c.do(&vfE2Op{Part: -1, Round: round, Key: key, Lid: lid, Kind: "unlock"})
+	}
+	if c.pairRole == 1 {
+		switch {
+		case round == 0:
+			lock(c.pairKeys[0], vfE2LongExpiry) // takes the (empty) fast slot
+		case round == 2:
+			unlock(c.pairKeys[0])
+			// wait (event: the key table, not a deadline) until the sweeper has removed the pin key's manager
+			t0 := time.Now()
+			for r.in.dbs[0].GetLockManager(&protocol.LockCommand{LockKey: vfKeyBytes(0, c.pairKeys[0])}) != nil {
+				if time.Since(t0) > 8*time.Second {
+					r.count("pair_pin_never_removed", 1)
+					break
+				}
+				time.Sleep(2 * time.Millisecond)
+			}
+			r.count("pair_slots_armed", 1)
+		case round > 2:
+			for i := 0; i < r.p.NoiseOps*2 && !c.failed; i++ {
+				probes := c.pairKeys[2:]
+				lock(probes[c.pairProbe%len(probes)], 0) // manager created in the fast slot and removed at once
+				c.pairProbe++
+			}
+		}
+		return
+	}
+	if round == 0 {
+		return
+	}
+	k := c.pairKeys[1]
+	if c.pairHeld {
+		unlock(k)
+		c.pairHeld = false
+	}
+	n := r.p.NoiseOps
+	if round < 3 {
+		n = 1
+	}
+	for i := 0; i < n && !c.failed; i++ {
+		if t := lock(k, vfE2LongExpiry).terminal(); t == nil || t.Result != protocol.RESULT_SUCCED {
+			return
+		}
+		unlock(k)
+	}
+	if t := lock(k, vfE2LongExpiry).terminal(); t != nil && t.Result == protocol.RESULT_SUCCED {
+		c.pairHeld = true // held across the barrier: the key's manager stays where it is (slow map)
 	}
 }
 
@@ -1223,9 +1350,30 @@ func vfE2RunHistory(p *vfE2Params, scratch string) *vfE2Hist {
 			workers = append(workers, newClient(k, cp, &p.Keys[k]))
 		}
 	}
+	var pairSlots []uint32
+	if p.Profile == "churn-pairs" {
+		used := map[uint32]bool{}
+		for k := range p.Keys {
+			for rd := 0; rd < p.Rounds; rd++ {
+				used[vfE2FastHash(vfKeyBytes(0, vfE2KeyIdx(k, rd)))%uint32(p.FastKeys)] = true
+			}
+		}
+		for sl := uint32(0); sl < uint32(p.FastKeys) && len(pairSlots) < p.Noise/2; sl++ {
+			if !used[sl] {
+				pairSlots = append(pairSlots, sl)
+			}
+		}
+	}
 	for n := 0; n < p.Noise; n++ {
 		c := newClient(-1, vfE2ClientPlan{Front: "mem"}, nil)
 		c.noiseIdx = n
+		if n/2 < len(pairSlots) {
+			c.pairRole = 1 + n%2
+			c.pairKeys = vfE2SlotKeys(uint32(p.FastKeys), pairSlots[n/2], 60000, 34)
+			if len(c.pairKeys) < 34 {
+				c.pairRole = 0
+			}
+		}
 		workers = append(workers, c)
 	}
 	h.Clients = len(workers)
@@ -1496,6 +1644,15 @@ func vfE2Judge(h *vfE2Hist, linchk string, scratch string) *vfE2Verdict {
 				unl[op.Lid] = append(unl[op.Lid], op)
 			}
 		}
+		// a LockId that ever asked for a short expiry on this key is left out of the definite rules: a
+		// re-entrant re-lock keeps the record in the wheel of the first grant's unit, so even a later
+		// 600 s re-lock of such a hold may end early (expiry is C06's business, not judged here)
+		tainted := map[int]bool{}
+		for _, op := range kops {
+			if op.Kind == "lock" && op.Expried > 0 && (op.Expried != vfE2LongExpiry || op.EFlag != 0) {
+				tainted[op.Lid] = true
+			}
+		}
 		type iv struct {
 			s, e int64
 			g    *vfE2Op
@@ -1503,7 +1660,7 @@ func vfE2Judge(h *vfE2Hist, linchk string, scratch string) *vfE2Verdict {
 		perLid := map[int][]iv{}
 		for _, g := range kops {
 			t := g.terminal()
-			if g.Kind != "lock" || g.Expried != vfE2LongExpiry || g.EFlag != 0 || t == nil || t.Result != protocol.RESULT_SUCCED {
+			if g.Kind != "lock" || g.Expried != vfE2LongExpiry || g.EFlag != 0 || t == nil || t.Result != protocol.RESULT_SUCCED || tainted[g.Lid] || g.notice() != nil {
 				if g.Part == -1 && !g.Drain && g.Kind == "lock" && t != nil && t.Result != protocol.RESULT_SUCCED {
 					v.find("C01", "solo-lock-refused", "a lock request on a key nobody else uses was answered %s: %s", vfResName(t.Result), g.String())
 				}
@@ -1580,7 +1737,7 @@ func vfE2Judge(h *vfE2Hist, linchk string, scratch string) *vfE2Verdict {
 				var gts int64
 				for _, c := range kops {
 					ct := c.terminal()
-					if c.Kind == "lock" && c.Lid == lid && c.Expried == vfE2LongExpiry && c.EFlag == 0 && ct != nil && ct.Result == protocol.RESULT_SUCCED && ct.Ts < u.Call && ct.Ts > gts {
+					if c.Kind == "lock" && c.Lid == lid && !tainted[lid] && c.notice() == nil && c.Expried == vfE2LongExpiry && c.EFlag == 0 && ct != nil && ct.Result == protocol.RESULT_SUCCED && ct.Ts < u.Call && ct.Ts > gts {
 						g, gts = c, ct.Ts
 					}
 				}
@@ -1810,6 +1967,9 @@ func vfE2Report(env *vfEnv, part *vfPart, h *vfE2Hist, v *vfE2Verdict, replayPat
 	for _, kp := range p.Keys {
 		part.Add("e2_keys_mode_"+kp.Mode, 1)
 	}
+	if p.Profile != "" {
+		part.Add("e2_histories_profile_"+p.Profile, 1)
+	}
 	part.Mark("e2_traces", v.Trace)
 	incon := append(append([]string(nil), h.Incon...), v.Incon...)
 	if len(incon) > 0 {
@@ -1983,6 +2143,7 @@ func vfE2RunChild(env *vfEnv, p *vfE2Params, linchk string, tag string, part *vf
 		if json.Unmarshal(ob, out) == nil && out.Part != nil {
 			out.Part.Cases = 0
 			part.Merge(out.Part)
+			part.unknownViol += len(out.Part.Violations)
 			return
 		}
 	}
@@ -2077,7 +2238,7 @@ func vfE2Stage(env *vfEnv, prop string, part *vfPart) {
 		}
 		return
 	}
-	n := env.N(24, 640)
+	n := env.N(18, 640)
 	workers := 8
 	if env.Thorough() {
 		workers = 10
